@@ -262,7 +262,7 @@ func (c *cors) handle(node types.Node, wh http.Header, r *http.Request) {
 	reqMethod := r.Header.Get(header.AccessControlRequestMethod)
 	preflight := r.Method == http.MethodOptions &&
 		reqMethod != "" &&
-		r.URL.Path != "*" // OPTIONS * 不算预检，也不存在其它的请求方法处理方式。
+		r.URL.Path != "*" && r.URL.Path != "" // OPTIONS * 不算预检，也不存在其它的请求方法处理方式；空路径与 * 作相同处理。
 
 	if preflight {
 		// Access-Control-Allow-Methods
